@@ -29,8 +29,11 @@ import (
 	"time"
 	. "verifharness/hx"
 
+	kbls "github.com/kilic/bls12-381"
 	blsu "github.com/protolambda/bls12-381-util"
 	"github.com/protolambda/zrnt/eth2/beacon/common"
+	"github.com/protolambda/zrnt/eth2/beacon/phase0"
+	"github.com/protolambda/zrnt/eth2/configs"
 	"github.com/protolambda/ztyp/tree"
 )
 
@@ -45,10 +48,12 @@ func main() {
 // ---------------------------------------------------------------------------------------------
 // shared: case specification and event stream
 
-const maxPubkeys = 8
+const maxPubkeys = 8 // cache stream
+const totalKeys = 16 // deposit stream: 8 genesis validators + up to 8 depositors
 
 type OpSpec struct {
 	V, Dst, I, P int
+	Copy         bool `json:",omitempty"` // deposit stream: copy context V (otherwise ProcessDeposit of pubkey P on context V)
 }
 
 type CaseSpec struct {
@@ -60,6 +65,7 @@ type CaseSpec struct {
 	NOps    int      `json:"nops"`     // number of random ops (when Fixed is empty)
 	MaxVars int      `json:"max_vars"` // handle variables
 	Fixed   []OpSpec `json:"fixed"`    // fixed op sequence (witnesses, replay)
+	Stream  string   `json:"stream"`   // "" = cache stream (AddValidator calls), "deposit" = phase0.ProcessDeposit on state copies
 }
 
 type Event struct {
@@ -69,6 +75,7 @@ type Event struct {
 	Pubs  []int    `json:"pubs,omitempty"`  // per index 0..K-1: 0 = not found, p+1 = pubkey number p; -1 = unknown pubkey bytes
 	Idxs  []int64  `json:"idxs,omitempty"`  // per pubkey: 0 = not found, i+1
 	Shape [][3]int `json:"shape,omitempty"` // (trustedParentCount, len(idx2pub), len(pub2idx)) from handle to root
+	Reg   []int    `json:"reg,omitempty"`   // deposit stream: pubkey numbers of the context's own state registry
 	Op    *OpSpec  `json:"op,omitempty"`
 	Class string   `json:"class,omitempty"`
 	Res   string   `json:"res,omitempty"` // same, fresh, err, panic
@@ -96,9 +103,9 @@ func (r *rng) chance(p int) bool { return r.intn(100) < p }
 // ---------------------------------------------------------------------------------------------
 // child: runs the real code
 
-// real BLS pubkeys: SkToPk of the secret keys 1..maxPubkeys
+// real BLS pubkeys: SkToPk of the secret keys 1..totalKeys
 func deriveKeys() ([]common.BLSPubkey, error) {
-	keys := make([]common.BLSPubkey, maxPubkeys)
+	keys := make([]common.BLSPubkey, totalKeys)
 	for i := range keys {
 		var b [32]byte
 		b[31] = byte(i + 1)
@@ -322,6 +329,10 @@ func (c *childState) genOp(r *rng, spec *CaseSpec, tabs []table) OpSpec {
 }
 
 func (c *childState) runCase(spec *CaseSpec) {
+	if spec.Stream == "deposit" {
+		c.runDepositCase(spec)
+		return
+	}
 	c.emit(Event{T: "begin", ID: spec.ID})
 	k := spec.NPub + 3
 	var root *common.PubkeyCache
@@ -387,6 +398,178 @@ func (c *childState) runCase(spec *CaseSpec) {
 		for v := range vars {
 			tabs[v] = c.query(vars[v], spec.NPub, k)
 			c.emit(Event{T: "dump", Var: v, Pubs: tabs[v].pubs, Idxs: tabs[v].idxs, Shape: tabs[v].shape})
+		}
+	}
+	c.emit(Event{T: "end", ID: spec.ID})
+}
+
+// ---- deposit stream: phase0.ProcessDeposit on copies of a kick-started state ----
+
+const nGenesis = 8
+
+type depCtx struct {
+	state common.BeaconState
+	epc   *common.EpochsContext
+}
+
+func (c *childState) registry(st common.BeaconState) ([]int, error) {
+	vals, err := st.Validators()
+	if err != nil {
+		return nil, err
+	}
+	n, err := vals.ValidatorCount()
+	if err != nil {
+		return nil, err
+	}
+	out := make([]int, 0, n)
+	for i := uint64(0); i < n; i++ {
+		v, err := vals.Validator(common.ValidatorIndex(i))
+		if err != nil {
+			return nil, err
+		}
+		pub, err := v.Pubkey()
+		if err != nil {
+			return nil, err
+		}
+		num, ok := c.keyNum[pub]
+		if !ok {
+			num = 999998
+		}
+		out = append(out, num)
+	}
+	return out, nil
+}
+
+func (c *childState) dumpCtx(v int, ctx *depCtx, npub, k int) (table, []int) {
+	t := c.query(ctx.epc.ValidatorPubkeyCache, npub, k)
+	reg, err := c.registry(ctx.state)
+	if err != nil {
+		reg = []int{999997}
+	}
+	c.emit(Event{T: "dump", Var: v, Pubs: t.pubs, Idxs: t.idxs, Shape: t.shape, Reg: append([]int{}, reg...)})
+	return t, reg
+}
+
+func contains(xs []int, x int) bool {
+	for _, y := range xs {
+		if y == x {
+			return true
+		}
+	}
+	return false
+}
+
+func (c *childState) genDepositOp(r *rng, spec *CaseSpec, regs [][]int) (OpSpec, string) {
+	if len(regs) < spec.MaxVars && r.chance(22) {
+		return OpSpec{V: r.intn(len(regs)), Copy: true}, "copy_context"
+	}
+	v := r.intn(len(regs))
+	reg := regs[v]
+	n := len(reg)
+	var free, sibling []int
+	for q := 0; q < spec.NPub; q++ {
+		if !contains(reg, q) {
+			free = append(free, q)
+		}
+	}
+	siblingHasOther := false
+	for d, rd := range regs {
+		if d != v && len(rd) > n {
+			if !contains(reg, rd[n]) {
+				sibling = append(sibling, rd[n])
+			}
+			siblingHasOther = true
+		}
+	}
+	switch x := r.intn(100); {
+	case x < 15 || len(free) == 0:
+		return OpSpec{V: v, P: reg[r.intn(n)]}, "top_up_registered_key"
+	case x < 45 && len(sibling) > 0:
+		return OpSpec{V: v, P: sibling[r.intn(len(sibling))]}, "new_key_same_as_sibling_at_this_index"
+	default:
+		p := free[r.intn(len(free))]
+		class := "new_key_no_sibling_ahead"
+		if contains(sibling, p) {
+			class = "new_key_same_as_sibling_at_this_index"
+		} else if siblingHasOther {
+			class = "new_key_differs_from_sibling_at_this_index"
+		}
+		return OpSpec{V: v, P: p}, class
+	}
+}
+
+func (c *childState) runDepositCase(spec *CaseSpec) {
+	c.emit(Event{T: "begin", ID: spec.ID})
+	k := spec.NPub + 3
+	fail := func(msg string) {
+		c.emit(Event{T: "res", Res: "err", Msg: msg})
+		c.emit(Event{T: "end", ID: spec.ID})
+	}
+	cfg := configs.Minimal
+	vals := make([]phase0.KickstartValidatorData, nGenesis)
+	for i := range vals {
+		vals[i] = phase0.KickstartValidatorData{Pubkey: c.keys[i], WithdrawalCredentials: common.Root{byte(i)}, Balance: cfg.MAX_EFFECTIVE_BALANCE}
+	}
+	st, epc, err := phase0.KickStartState(cfg, common.Root{0x42}, 1600000000, vals)
+	if err != nil {
+		fail("KickStartState: " + err.Error())
+		return
+	}
+	// any parseable signature does: ProcessDeposit is called with ignoreSignatureAndProof
+	sig := common.BLSSignature((*blsu.Signature)(kbls.NewG2().One()).Serialize())
+	ctxs := []*depCtx{{state: st, epc: epc}}
+	regs := make([][]int, 1)
+	_, regs[0] = c.dumpCtx(0, ctxs[0], spec.NPub, k)
+	r := &rng{s: spec.Seed}
+	n := spec.NOps
+	if len(spec.Fixed) > 0 {
+		n = len(spec.Fixed)
+	}
+	for step := 0; step < n; step++ {
+		var op OpSpec
+		class := "fixed"
+		if len(spec.Fixed) > 0 {
+			op = spec.Fixed[step]
+			if op.V < 0 || op.V >= len(ctxs) || op.P < 0 || op.P >= spec.NPub {
+				break
+			}
+		} else {
+			op, class = c.genDepositOp(r, spec, regs)
+		}
+		c.emit(Event{T: "op", Op: &op, Class: class})
+		ctx := ctxs[op.V]
+		if op.Copy {
+			st2, err := ctx.state.CopyState()
+			if err != nil {
+				fail("CopyState: " + err.Error())
+				return
+			}
+			ctxs = append(ctxs, &depCtx{state: st2, epc: ctx.epc.Clone()})
+			regs = append(regs, nil)
+			c.emit(Event{T: "res", Res: "copied"})
+		} else {
+			before := len(regs[op.V])
+			dep := common.Deposit{Data: common.DepositData{Pubkey: c.keys[op.P], WithdrawalCredentials: common.Root{byte(op.P)}, Amount: cfg.MAX_EFFECTIVE_BALANCE, Signature: sig}}
+			var derr error
+			panicked, pv := Catch(func() { derr = phase0.ProcessDeposit(cfg, ctx.epc, ctx.state, &dep, true) })
+			switch {
+			case panicked:
+				c.emit(Event{T: "res", Res: "panic", Msg: fmt.Sprint(pv)})
+				c.emit(Event{T: "end", ID: spec.ID})
+				return
+			case derr != nil:
+				c.emit(Event{T: "res", Res: "err", Msg: derr.Error()})
+			default:
+				after, rerr := c.registry(ctx.state)
+				if rerr == nil && len(after) > before {
+					c.emit(Event{T: "res", Res: "added"})
+				} else {
+					c.emit(Event{T: "res", Res: "topup"})
+				}
+			}
+		}
+		for v := range ctxs {
+			_, regs[v] = c.dumpCtx(v, ctxs[v], spec.NPub, k)
 		}
 	}
 	c.emit(Event{T: "end", ID: spec.ID})
@@ -653,14 +836,16 @@ func coqInt64s(xs []int64) string {
 	}
 	return "[" + strings.Join(s, ";") + "]"
 }
-func coqDump(ev *Event) string {
+func coqDump(ev *Event, dep bool) string {
 	sh := make([]string, len(ev.Shape))
 	for i, l := range ev.Shape {
 		sh[i] = fmt.Sprintf("(%d,%d,%d)", l[0], l[1], l[2])
 	}
+	if dep {
+		return fmt.Sprintf("(%d, DDump %s %s %s [%s])", ev.Var, coqInts(ev.Reg), coqInts(ev.Pubs), coqInt64s(ev.Idxs), strings.Join(sh, ";"))
+	}
 	return fmt.Sprintf("(%d, Dump %s %s [%s])", ev.Var, coqInts(ev.Pubs), coqInt64s(ev.Idxs), strings.Join(sh, ";"))
 }
-func dumpKey(ev *Event) string { return coqDump(ev) }
 
 func goRes(r string) string {
 	switch r {
@@ -672,6 +857,10 @@ func goRes(r string) string {
 		return "GoErr"
 	case "panic":
 		return "GoPanic"
+	case "added", "copied":
+		return "(GoOk true)"
+	case "topup":
+		return "(GoOk false)"
 	default:
 		return "GoNoReturn"
 	}
@@ -682,7 +871,7 @@ func runC16(e *Env) error {
 	e.CaseType = "ccase"
 	e.ShardSize = 40
 	e.ShardBytes = 90000
-	e.Rule = "a case = one initial cache (EmptyPubkeyCache, or NewPubkeyCache over a duplicate-free registry of 1..4 keys) and up to 40 AddValidator calls over <= 6 handle variables (result stored in the same variable, a new variable, or another one), 4..8 real BLS pubkeys (SkToPk of sk=1..8), index drawn around the receiver's frontier (len-1, len, len+1, len+2, anywhere below), pubkey drawn as the one already at that index / one not on the history / any. After every call every variable is asked Pubkey(i) for all i < npub+3 and ValidatorIndex(p) for all p, and its object chain is read through the hook; the two known witnesses of the pinned snapshot come first. non-trivial = at least one call returned a fresh (forked) handle; distinct by the whole observed sequence. Calls run in a child process (2 MB max stack, 20 s stall deadline): a call that does not return is recorded as GoNoReturn"
+	e.Rule = "a case = one initial cache (EmptyPubkeyCache, or NewPubkeyCache over a duplicate-free registry of 1..4 keys) and up to 40 AddValidator calls over <= 6 handle variables (result stored in the same variable, a new variable, or another one), 4..8 real BLS pubkeys (SkToPk of sk=1..8), index drawn around the receiver's frontier (len-1, len, len+1, len+2, anywhere below), pubkey drawn as the one already at that index / one not on the history / any. After every call every variable is asked Pubkey(i) for all i < npub+3 and ValidatorIndex(p) for all p, and its object chain is read through the hook; the two known witnesses of the pinned snapshot come first. non-trivial = at least one call returned a fresh (forked) handle; distinct by the whole observed sequence. Calls run in a child process (2 MB max stack, 20 s stall deadline): a call that does not return is recorded as GoNoReturn. DEPOSIT STREAM (kinds deposit_*): phase0.KickStartState over the minimal preset with 8 real keys, then up to 30 ops over <= 6 contexts: copy a context (state.CopyState + epc.Clone) or phase0.ProcessDeposit (ignoreSignatureAndProof, parseable G2 signature) of a registered key (top-up), of the key a sibling already added at this index, or of a new key (3..7 extra keys) so that siblings add different keys at the same index and forks fork again; after every op every context is asked all lookups as above and its own state registry is read back; non-trivial = some context ends up on a forked cache handle"
 	r := e.Rng
 
 	var specs []CaseSpec
@@ -701,10 +890,10 @@ func runC16(e *Env) error {
 		add(*s)
 	} else {
 		// the two witnesses of the pinned snapshot, each from a registry-built cache and from an incrementally built one
-		add(CaseSpec{Kind: "witness_sibling_leak", Init: []int{0, 1}, NPub: 3, Fixed: []OpSpec{{0, 1, 1, 2}, {1, 1, 2, 1}, {0, 0, 2, 2}}})
-		add(CaseSpec{Kind: "witness_sibling_leak", NPub: 3, Fixed: []OpSpec{{0, 0, 0, 0}, {0, 0, 1, 1}, {0, 1, 1, 2}, {0, 0, 2, 2}, {1, 1, 2, 1}}})
-		add(CaseSpec{Kind: "witness_add_diverges", Init: []int{0, 1, 2}, NPub: 3, Fixed: []OpSpec{{0, 1, 1, 2}}})
-		add(CaseSpec{Kind: "witness_add_diverges", NPub: 3, Fixed: []OpSpec{{0, 0, 0, 0}, {0, 0, 1, 1}, {0, 0, 2, 2}, {0, 1, 1, 2}, {1, 2, 0, 1}, {2, 2, 1, 0}}})
+		add(CaseSpec{Kind: "witness_sibling_leak", Init: []int{0, 1}, NPub: 3, Fixed: []OpSpec{{V: 0, Dst: 1, I: 1, P: 2}, {V: 1, Dst: 1, I: 2, P: 1}, {V: 0, Dst: 0, I: 2, P: 2}}})
+		add(CaseSpec{Kind: "witness_sibling_leak", NPub: 3, Fixed: []OpSpec{{V: 0, Dst: 0, I: 0, P: 0}, {V: 0, Dst: 0, I: 1, P: 1}, {V: 0, Dst: 1, I: 1, P: 2}, {V: 0, Dst: 0, I: 2, P: 2}, {V: 1, Dst: 1, I: 2, P: 1}}})
+		add(CaseSpec{Kind: "witness_add_diverges", Init: []int{0, 1, 2}, NPub: 3, Fixed: []OpSpec{{V: 0, Dst: 1, I: 1, P: 2}}})
+		add(CaseSpec{Kind: "witness_add_diverges", NPub: 3, Fixed: []OpSpec{{V: 0, Dst: 0, I: 0, P: 0}, {V: 0, Dst: 0, I: 1, P: 1}, {V: 0, Dst: 0, I: 2, P: 2}, {V: 0, Dst: 1, I: 1, P: 2}, {V: 1, Dst: 2, I: 0, P: 1}, {V: 2, Dst: 2, I: 1, P: 0}}})
 		n := e.N(320, 12000)
 		for c := 0; c < n; c++ {
 			s := CaseSpec{Kind: "random_empty_init", Seed: r.U64(), NPub: 4 + r.Intn(maxPubkeys-3), NOps: 4 + r.Intn(37), MaxVars: 2 + r.Intn(5)}
@@ -722,6 +911,19 @@ func runC16(e *Env) error {
 			}
 			add(s)
 		}
+		// deposit stream: phase0.ProcessDeposit on copies of a kick-started state (8 genesis validators = pubkeys 0..7)
+		gen := []int{0, 1, 2, 3, 4, 5, 6, 7}
+		cp := func(c int) OpSpec { return OpSpec{V: c, Copy: true} }
+		dp := func(c, p int) OpSpec { return OpSpec{V: c, P: p} }
+		// siblings add different new keys at the same index; same key on two siblings; top-ups; forks of forks
+		add(CaseSpec{Kind: "deposit_witness_siblings", Stream: "deposit", Init: gen, NPub: 12, Fixed: []OpSpec{
+			cp(0), dp(0, 8), dp(1, 9), dp(1, 8), dp(0, 9), dp(0, 3), dp(1, 9), cp(1), dp(2, 10), dp(1, 11), dp(1, 10), cp(2), dp(3, 11), dp(2, 8), dp(0, 10)}})
+		add(CaseSpec{Kind: "deposit_witness_siblings", Stream: "deposit", Init: gen, NPub: 11, Fixed: []OpSpec{
+			cp(0), cp(0), dp(1, 8), dp(2, 8), dp(0, 9), dp(2, 10), dp(1, 10), dp(0, 10), dp(0, 8), cp(0), dp(3, 8), dp(3, 7)}})
+		nd := e.N(110, 3000)
+		for c := 0; c < nd; c++ {
+			add(CaseSpec{Kind: "deposit_random", Stream: "deposit", Seed: r.U64(), Init: gen, NPub: nGenesis + 3 + r.Intn(5), NOps: 6 + r.Intn(25), MaxVars: 2 + r.Intn(5)})
+		}
 	}
 
 	recs, err := runAll(specs, 8)
@@ -732,25 +934,37 @@ func runC16(e *Env) error {
 	classCount := map[string]int{}
 	resByClass := map[string]map[string]int{}
 	totalOps, maxDepth, maxVars, totalQueries := 0, 0, 0, 0
+	depCases, depOps := 0, 0
+	depClass := map[string]int{}
 	for _, rec := range recs {
 		if rec.Failed != "" || rec.Dump0 == nil {
 			return fmt.Errorf("case %d (%s): %s", rec.Spec.ID, rec.Spec.Kind, rec.Failed)
 		}
 		k := rec.Spec.NPub + 3
+		dep := rec.Spec.Stream == "deposit"
+		dumpKey := func(ev *Event) string { return coqDump(ev, dep) }
 		last := map[int]string{0: dumpKey(rec.Dump0)}
 		var steps []string
 		forks := 0
+		if dep {
+			depCases++
+		}
 		var jsteps []interface{}
 		for si := range rec.Steps {
 			st := &rec.Steps[si]
-			totalOps++
-			classCount[st.Class]++
-			if resByClass[st.Class] == nil {
-				resByClass[st.Class] = map[string]int{}
-			}
-			resByClass[st.Class][st.Go]++
-			if st.Go == "fresh" {
-				forks++
+			if dep {
+				depOps++
+				depClass[st.Class+" -> "+st.Go]++
+			} else {
+				totalOps++
+				classCount[st.Class]++
+				if resByClass[st.Class] == nil {
+					resByClass[st.Class] = map[string]int{}
+				}
+				resByClass[st.Class][st.Go]++
+				if st.Go == "fresh" {
+					forks++
+				}
 			}
 			vs := make([]int, 0, len(st.Dumps))
 			for v := range st.Dumps {
@@ -765,6 +979,9 @@ func runC16(e *Env) error {
 				if len(d.Shape) > maxDepth {
 					maxDepth = len(d.Shape)
 				}
+				if dep && len(d.Shape) > 1 {
+					forks++ // a context whose cache handle is a forked one
+				}
 				if v+1 > maxVars {
 					maxVars = v + 1
 				}
@@ -773,10 +990,24 @@ func runC16(e *Env) error {
 					last[v] = key
 					obs = append(obs, key)
 				}
-				tabs = append(tabs, map[string]interface{}{"var": v, "pubkey_at": d.Pubs, "index_of": d.Idxs, "chain": d.Shape})
+				tab := map[string]interface{}{"var": v, "pubkey_at": d.Pubs, "index_of": d.Idxs, "chain": d.Shape}
+				if dep {
+					tab["state_registry"] = d.Reg
+				}
+				tabs = append(tabs, tab)
 			}
-			steps = append(steps, fmt.Sprintf("CStep %d %d %d %d %s [%s]", st.Op.V, st.Op.Dst, st.Op.I, st.Op.P, goRes(st.Go), strings.Join(obs, ";")))
-			js := map[string]interface{}{"AddValidator_on_var": st.Op.V, "store_in_var": st.Op.Dst, "index": st.Op.I, "pubkey": st.Op.P, "class": st.Class, "go": st.Go}
+			var js map[string]interface{}
+			if dep {
+				steps = append(steps, fmt.Sprintf("DStep %s %d %d %s [%s]", CoqBool(st.Op.Copy), st.Op.V, st.Op.P, goRes(st.Go), strings.Join(obs, ";")))
+				if st.Op.Copy {
+					js = map[string]interface{}{"copy_context": st.Op.V, "go": st.Go}
+				} else {
+					js = map[string]interface{}{"ProcessDeposit_on_context": st.Op.V, "pubkey": st.Op.P, "class": st.Class, "go": st.Go}
+				}
+			} else {
+				steps = append(steps, fmt.Sprintf("CStep %d %d %d %d %s [%s]", st.Op.V, st.Op.Dst, st.Op.I, st.Op.P, goRes(st.Go), strings.Join(obs, ";")))
+				js = map[string]interface{}{"AddValidator_on_var": st.Op.V, "store_in_var": st.Op.Dst, "index": st.Op.I, "pubkey": st.Op.P, "class": st.Class, "go": st.Go}
+			}
 			if st.Msg != "" {
 				js["msg"] = st.Msg
 			}
@@ -785,18 +1016,23 @@ func runC16(e *Env) error {
 			}
 			jsteps = append(jsteps, js)
 		}
-		coq := fmt.Sprintf("CCase %s %d %d [%s]\n    [%s]", coqInts(rec.Spec.Init), rec.Spec.NPub, k, dumpKey(rec.Dump0), strings.Join(steps, ";\n     "))
+		ctor := "CCase"
+		if dep {
+			ctor = "DCase"
+		}
+		coq := fmt.Sprintf("%s %s %d %d [%s]\n    [%s]", ctor, coqInts(rec.Spec.Init), rec.Spec.NPub, k, dumpKey(rec.Dump0), strings.Join(steps, ";\n     "))
 		var ops []OpSpec
 		for _, st := range rec.Steps {
 			ops = append(ops, st.Op)
 		}
 		kind := rec.Spec.Kind
 		e.Add(Case{Coq: coq, Kind: kind, NonTrivial: forks > 0,
-			JSON: map[string]interface{}{"kind": kind, "init_registry": rec.Spec.Init, "npub": rec.Spec.NPub, "ops": ops, "steps": jsteps,
+			JSON: map[string]interface{}{"kind": kind, "stream": rec.Spec.Stream, "init_registry": rec.Spec.Init, "npub": rec.Spec.NPub, "ops": ops, "steps": jsteps,
 				"note": "pubkey n = SkToPk(secret key n+1); tables: pubkey_at[i] = 0 (none) or pubkey number+1, index_of[p] = 0 or index+1, chain = (trustedParentCount, len(idx2pub), len(pub2idx)) from the handle to the root"}})
 	}
 	e.Extra["x_op_distribution"] = classCount
 	e.Extra["x_go_result_by_class"] = resByClass
+	e.Extra["x_deposit_stream"] = map[string]interface{}{"cases": depCases, "copies_and_deposits": depOps, "class_and_go_result": depClass}
 	e.Extra["x_totals"] = map[string]int{"cases": len(recs), "add_validator_calls": totalOps, "lookups_compared": totalQueries, "max_chain_depth": maxDepth, "max_handle_variables": maxVars}
 	return nil
 }
@@ -809,10 +1045,11 @@ func replaySpec(path string) (*CaseSpec, error) {
 	var rp struct {
 		FailingCase struct {
 			Case struct {
-				Kind string   `json:"kind"`
-				Init []int    `json:"init_registry"`
-				NPub int      `json:"npub"`
-				Ops  []OpSpec `json:"ops"`
+				Kind   string   `json:"kind"`
+				Stream string   `json:"stream"`
+				Init   []int    `json:"init_registry"`
+				NPub   int      `json:"npub"`
+				Ops    []OpSpec `json:"ops"`
 			} `json:"case"`
 		} `json:"failing_case"`
 	}
@@ -823,7 +1060,7 @@ func replaySpec(path string) (*CaseSpec, error) {
 	if c.NPub == 0 || len(c.Ops) == 0 {
 		return nil, fmt.Errorf("replay file %s holds no operation sequence", path)
 	}
-	return &CaseSpec{Kind: "replay_" + c.Kind, Init: c.Init, NPub: c.NPub, Fixed: c.Ops}, nil
+	return &CaseSpec{Kind: "replay_" + c.Kind, Stream: c.Stream, Init: c.Init, NPub: c.NPub, Fixed: c.Ops}, nil
 }
 
 var _ = io.EOF
